@@ -13,11 +13,13 @@ META = {
                    'same message for the same receiver endpoint and leaves the stream aligned. The loops of the multiplexer '
                    'and demultiplexer threads (mux_thread, demux_thread) executed over a scripted queue / connection: every '
                    'message goes to exactly the recipient it is addressed to, completely, once, in order per recipient, also '
-                   'when a recipient queue refuses timed or non-blocking sends. Connection set-up, the threads themselves '
+                   'when a recipient queue refuses timed or non-blocking sends. channel::Receiver::select / select_timeout over model '
+                   'flume receivers: nothing that arrived is lost or reordered, for every timeout. Connection set-up, the threads themselves '
                    'and TCP are not covered.',
     'assumptions': ['flume channels are FIFO and lossless', 'TCP is a reliable byte stream',
                     'stubs in the mux / demux harnesses: remote_recv / remote_send (scripted; the real ones are decided by the '
                     'framing tasks), TcpStream (peer_addr, shutdown, flush), the recipients\' flume senders',
+                    'flume::Receiver / flume::Selector are models: FIFO queues of arrived messages, wait picks any ready arm',
                     'bincode is an injective encoding whose serialized_size agrees with serialize_into; messages < 4 GiB'],
     'trusted': ['mirsym MIR executor and its std model table', 'z3 / cvc5'],
 }
